@@ -16,6 +16,7 @@ import (
 
 	"github.com/lugu/qiloop/bus"
 	qnet "github.com/lugu/qiloop/bus/net"
+	"github.com/lugu/qiloop/bus/util"
 	"github.com/lugu/qiloop/examples/pong"
 )
 
@@ -177,5 +178,97 @@ func init() {
 			return "crash"
 		}
 		return out.Result
+	}
+}
+
+// svc.posttold: a subscriber that registered with a post (no answer wanted) — it receives the events like any other —
+// is told when the object is removed, like any other.
+func svcPostTold(a []string) string {
+	log.SetOutput(ioutil.Discard)
+	addr := util.NewUnixAddr()
+	l, err := qnet.Listen(addr)
+	if err != nil {
+		return "setup-error:" + err.Error()
+	}
+	srv, err := bus.StandAloneServer(l, bus.Yes{}, bus.PrivateNamespace())
+	if err != nil {
+		return "setup-error:" + err.Error()
+	}
+	defer func() {
+		done := make(chan struct{})
+		go func() { srv.Terminate(); close(done) }()
+		select {
+		case <-done:
+		case <-time.After(3 * time.Second):
+		}
+	}()
+	impl := &sgImpl{}
+	svc, err := srv.NewService("PingPong", pong.PingPongObject(impl))
+	if err != nil {
+		return "setup-error:" + err.Error()
+	}
+	sid := svc.ServiceID()
+	// both kinds of registration are live; then the object is removed and both are told
+	rawC, err := lendDial(addr)
+	if err != nil {
+		return "setup-error:" + err.Error()
+	}
+	defer rawC.conn.Close()
+	rawP, err := lendDial(addr)
+	if err != nil {
+		return "setup-error:" + err.Error()
+	}
+	defer rawP.conn.Close()
+	reg := append(append(leBytes(4, 1), leBytes(4, 102)...), leBytes(8, 4242)...)
+	rawC.send(qnet.NewHeader(qnet.Call, sid, 1, 0, 77), reg)
+	reg2 := append(append(leBytes(4, 1), leBytes(4, 102)...), leBytes(8, 4343)...)
+	rawP.send(qnet.NewHeader(qnet.Post, sid, 1, 0, 78), reg2)
+	time.Sleep(80 * time.Millisecond)
+	go impl.h.SignalPong("x")
+	got := func(r *lendRaw, want uint8, d time.Duration) bool {
+		deadline := time.After(d)
+		for {
+			select {
+			case m, ok := <-r.in:
+				if !ok {
+					return false
+				}
+				if m.Header.Type == want {
+					return true
+				}
+			case <-deadline:
+				return false
+			}
+		}
+	}
+	if !got(rawC, qnet.Event, 2*time.Second) {
+		return "fail:the subscriber registered with a call receives no event"
+	}
+	if !got(rawP, qnet.Event, 2*time.Second) {
+		return "fail:the subscriber registered with a post receives no event"
+	}
+	removed := make(chan error, 1)
+	go func() { removed <- svc.Remove(1) }()
+	select {
+	case <-removed:
+	case <-time.After(3 * time.Second):
+		return "fail:stuck the removal does not return"
+	}
+	if !got(rawC, qnet.Error, 2*time.Second) {
+		return "fail:not-told the subscriber registered with a call is not told that the object is removed"
+	}
+	if !got(rawP, qnet.Error, 2*time.Second) {
+		return "fail:not-told the subscriber registered with a post is not told that the object is removed"
+	}
+	return "ok"
+}
+
+func init() {
+	executors["svc.posttold"] = func(a []string) string {
+		r := svcPostTold(a)
+		if r != "ok" {
+			lastFailDetail = r
+		}
+		return r
 	}
 }
